@@ -31,6 +31,9 @@ def valOf (j : Json) : Val :=
   match j with
   | .null => .null | .bool _ => .bool | .str _ => .str
   | .num n => if n.exponent == 0 then .int else .num
+  | .obj _ =>
+    let kvs := objKVs j
+    if kvs.all (fun kv => match kv.2 with | .str _ => true | _ => false) then .obj (kvs.map (·.1)) else .other
   | _ => .other
 def valAttrs (j : Json) (ks : List String) : List (String × Val) :=
   ks.filterMap (fun k => (field? j k).map (fun v => (k, valOf v)))
@@ -90,9 +93,19 @@ partial def mkSchema (env : Env) (j : Json) : Doc :=
     | some (.str s) => [s] | some (.arr xs) => xs.toList.map asStr | _ => []
   let keys := (objKVs j).map (·.1)
   let simple := keys.all (fun k => !schemaConstraining.contains k)
+  -- an object schema whose properties are all inline plain string schemas (fragment of `acceptsObj`)
+  let propKVs := match field? j "properties" with | some p => objKVs p | none => []
+  let plainStr := fun (x : Json) => isObj x && ((objKVs x).map (·.1)).all (["type", "readOnly", "writeOnly", "description"].contains ·) &&
+    (match field? x "type" with | some (.str "string") => true | _ => false)
+  let objSimple := types == ["object"] && keys.all (["type", "properties", "required", "description"].contains ·) &&
+    propKVs.all (fun kv => plainStr kv.2)
+  let flagged := fun (f : String) => (propKVs.filter (fun kv => match field? kv.2 f with | some (.bool true) => true | _ => false)).map (·.1)
+  let required := match field? j "required" with | some (.arr xs) => xs.toList.map asStr | _ => []
   .node .schema
-    { strs := strAttrs j ["format", "pattern"], lists := [("type", types)],
-      flags := boolFlags j ["readOnly", "writeOnly", "nullable"] ++ flagIf simple "simple",
+    { strs := strAttrs j ["format", "pattern"],
+      lists := [("type", types)] ++ (if objSimple then [("required", required), ("props", propKVs.map (·.1)),
+        ("roProps", flagged "readOnly"), ("woProps", flagged "writeOnly")] else []),
+      flags := boolFlags j ["readOnly", "writeOnly", "nullable"] ++ flagIf simple "simple" ++ flagIf objSimple "objSimple",
       vals := valAttrs j ["default", "example"], exts := unknownKeys j schemaKnown }
     (arr "oneOf" ++ arr "anyOf" ++ arr "allOf" ++ one "not" ++ one "items" ++ props ++ one "additionalProperties" ++
      (match field? j "externalDocs" with | some x => [("externalDocs", mkExternalDocs x)] | none => []) ++
@@ -294,6 +307,8 @@ def optListOf (j : Json) : List OptCall :=
 
 def dedup (l : List String) : List String := l.eraseDups
 
+def hasObjVal (d : Doc) : Bool := d.attrs.vals.any (fun kv => match kv.2 with | .obj _ => true | _ => false)
+
 def handle (j : Json) : Json :=
   let env : Env := { root := getD j "doc" Json.null, detach := strs (getArr j "detach") }
   let ol := optListOf j
@@ -324,9 +339,12 @@ def handle (j : Json) : Json :=
     (if ol.length ≥ 2 then [s!"optlist.len={ol.length}"] else []) ++
     (if (ol.map (·.1)).eraseDups.length < ol.length then ["optlist.repeated-constructor"] else []) ++
     (if ol.any (fun c => ol.any (fun c' => c.1 != c'.1 && (c.1.drop 6 == c'.1.drop 7 || c.1.drop 7 == c'.1.drop 6))) then ["optlist.enable-and-disable"] else []) ++
-    (if before.isEmpty then [] else [s!"before.calls={before.length}"]))
+    (if before.isEmpty then [] else [s!"before.calls={before.length}"]) ++
+    (if nodes.any hasObjVal then ["example.object"] else []))
   jobj [
-    ("model", jobj [("ok", Json.bool m), ("unmodelled", Json.bool (nodes.any valsUnmodelled))]),
+    -- object examples are read plainly only in calls without options (`optionless_examples_read_plainly`); with options
+    -- the reading depends on the request bodies / responses met before in the run: outside the modelled fragment
+    ("model", jobj [("ok", Json.bool m), ("unmodelled", Json.bool (nodes.any valsUnmodelled || (!ol.isEmpty && nodes.any hasObjVal)))]),
     ("spec", Json.str (match s with | .accept => "accept" | .reject => "reject" | .unspecified => "unspecified")),
     ("excl", jstrs excl),
     ("branches", jstrs branches)]
